@@ -90,8 +90,10 @@ def run_recv(seed, stream, cfg, res=None, peer_extra=None, side=None, policy=Non
         if cfg["write_fail"] not in ("EPIPE", "ECONNRESET"):
             raise InvalidScenario("write_fail")
         sock["send_fail"] = {"after_bytes": 0, "errno": cfg["write_fail"]}
+    # 'logtrace': the library's own trace logging is switched on (enableTrace into a sink handler): what it formats on the
+    # way must change nothing
     w, peers = std_world(seed=seed, peer_cfg=peer_cfg, link=link, sock=sock, policy=policy, choices=choices,
-                         step_cap=int(cfg.get("step_cap", 400_000)))
+                         step_cap=int(cfg.get("step_cap", 400_000)), trace=bool(cfg.get("logtrace")))
     prior = cfg.get("prior")
     if prior is not None:
         # the object under test has been used before: an earlier connection of the same WebSocket object was lost in the
